@@ -9,6 +9,7 @@ CONSTANTS
   MaxBurst = 2
   BurstReps = 10
   Opts = {"", "e", "p", "c", "ep", "ec", "pc", "epc"}
+  Anns = {}
   Depth = 30
 INVARIANT Inv
 CONSTRAINT EmitAll
